@@ -39,12 +39,14 @@ func consumeSingleTURNFrame(b []byte) (int, error) {
 		return 0, errIncompleteTURNFrame
 	}
 
-	var datagramSize uint16
+	// The frame size is computed as an int: header plus a 16-bit length does
+	// not fit a uint16 and would wrap to a size smaller than the header.
+	var datagramSize int
 	switch {
 	case stun.IsMessage(b):
-		datagramSize = binary.BigEndian.Uint16(b[2:4]) + stunHeaderSize
+		datagramSize = int(binary.BigEndian.Uint16(b[2:4])) + stunHeaderSize
 	case ChannelNumber(binary.BigEndian.Uint16(b[0:2])).Valid():
-		datagramSize = binary.BigEndian.Uint16(b[channelDataNumberSize:channelDataHeaderSize])
+		datagramSize = int(binary.BigEndian.Uint16(b[channelDataNumberSize:channelDataHeaderSize]))
 		if paddingOverflow := (datagramSize + channelDataPadding) % channelDataPadding; paddingOverflow != 0 {
 			datagramSize = (datagramSize + channelDataPadding) - paddingOverflow
 		}
@@ -56,11 +58,11 @@ func consumeSingleTURNFrame(b []byte) (int, error) {
 		return 0, errInvalidTURNFrame
 	}
 
-	if len(b) < int(datagramSize) {
+	if len(b) < datagramSize {
 		return 0, errIncompleteTURNFrame
 	}
 
-	return int(datagramSize), nil
+	return datagramSize, nil
 }
 
 // ReadFrom implements ReadFrom from net.PacketConn.
